@@ -291,7 +291,7 @@ def check(col: Collector):
     with col.rule():
         shared(col, "C09.R6", [c15._row_consistency],
                select=lambda o: construct_tag(o) in ("knobs-set-from-solver-x-after-solver-step", "evaluates-current-knobs",
-                                                     "evaluate-before-reading-results"),
+                                                     "evaluate-before-reading-results", "writes-each-active-knob"),
                why="solve() returns on the strength of the flag of the last evaluation; the knobs must be that very point")
     with col.rule():
         shared(col, "C09.R8", [c15._mask_columns], select=lambda o: "add_point_to_log" in o.construct,
